@@ -85,14 +85,20 @@ Definition check_traffic (v : tval) : bool :=
   && forallb (fun t => r_finished t || match t with RLock => true | _ => false end) ls.
 
 (* ---- kind 4: StreamProcessor read against Close ---- *)
-(* the op performs `uses` reader calls, Close runs to completion, the op performs one more; separately an op started after
+(* [4; uses; fixed; obs_result (0 ok, 1 error, 2 panic); obs_after_err]
+   the op performs `uses` reader calls, Close runs to completion, the op performs one more; separately an op started after
    the Close *)
-Definition check_stream (v : tval) : bool :=
+Definition stream_model (v : tval) : psh * list ppc :=
   let uses := vnat (vnth 1 v) in
-  let s := run _ _ (pstep (S uses)) (pinit, [OStart; PClose; OStart])
-               (repeat 0 (3 + uses) ++ repeat 1 5 ++ [0] ++ repeat 2 3) in
-  Bool.eqb (Nat.ltb 0 (p_panics (fst s))) (vbool (vnth 2 v))
-  && Bool.eqb (match nth_error (snd s) 2 with Some (ORet false) => true | _ => false end) (vbool (vnth 3 v)).
+  run _ _ (pstep (vbool (vnth 2 v)) (S uses)) (pinit, [OStart; PClose; OStart])
+      (repeat 0 (3 + uses) ++ repeat 1 5 ++ [0] ++ repeat 2 3).
+Definition op_result (t : option ppc) : nat :=
+  match t with Some (ORet true) => 0 | Some (ORet false) => 1 | Some OPanicked => 2 | _ => 3 end.
+Definition check_stream (v : tval) : bool :=
+  let s := stream_model v in
+  Nat.eqb (op_result (nth_error (snd s) 0)) (vnat (vnth 3 v))
+  && Bool.eqb (Nat.eqb (op_result (nth_error (snd s) 2)) 1) (vbool (vnth 4 v))
+  && Nat.eqb (p_rclose (fst s)) 1.
 
 Definition check (v : tval) : bool :=
   match vnat (vnth 0 v) with
@@ -116,5 +122,6 @@ Definition predict (v : tval) : tval :=
   | 2 => vnats (tunnel_obs (fst (park_scenario (vbool (vnth 1 v)) (vnat (vnth 2 v)) (map vnat (vl (vnth 3 v)))
                                                (map vbool (vl (vnth 4 v))) (map vnat (vl (vnth 5 v))))))
   | 3 => let '(sh, ls) := traffic_model v in VL [venc_z (r_stats sh); VL (map venc_z (r_calls sh)); venc_z (r_last sh)]
+  | 4 => let s := stream_model v in vnats [op_result (nth_error (snd s) 0); op_result (nth_error (snd s) 2); p_panics (fst s)]
   | _ => VL []
   end.
